@@ -388,14 +388,16 @@ class Bounds:
 
     .. attribute:: left
 
-       The greatest name in the zone that is less than or equal to ``name``.
+       The greatest name in the zone that is less than or equal to ``name``,
+       not counting names beneath a delegation point (glue).
 
        :type: :py:class:`dns.name.Name`
 
     .. attribute:: right
 
-       The least name in the zone that is greater than ``name``, or ``None``
-       if ``name`` is greater than every name in the zone.
+       The least name in the zone that is greater than ``name``, not counting
+       names beneath a delegation point (glue), or ``None`` if there is no such
+       name.
 
        :type: :py:class:`dns.name.Name` or ``None``
 
@@ -415,7 +417,8 @@ class Bounds:
 
     .. attribute:: is_delegation
 
-       ``True`` if the left bound is a delegation point.
+       ``True`` if ``name`` is at or beneath a delegation point (which is then
+       the left bound).
 
        :type: bool
     """
@@ -486,6 +489,8 @@ class ImmutableVersion(dns.zone.Version):
         The right bound of *name* is the least successor of *name*, or ``None`` if
         no name in the zone is greater than *name*.
 
+        Names beneath a delegation point (glue) are occluded and are never bounds.
+
         The closest encloser of *name* is *name* itself, if *name* is in the zone;
         otherwise it is the name with the largest number of labels in common with
         *name* that is in the zone, either explicitly or by the implied existence
@@ -494,8 +499,8 @@ class ImmutableVersion(dns.zone.Version):
         The *is_equal* field of the result is ``True`` if and only if *name* is equal
         to its left bound.
 
-        The *is_delegation* field of the result is ``True`` if and only if the left
-        bound is a delegation point.
+        The *is_delegation* field of the result is ``True`` if and only if *name* is
+        at or beneath a delegation point; the left bound is then that delegation point.
 
         :param name: The name to look up.
         :type name: :py:class:`dns.name.Name` or str
@@ -516,6 +521,11 @@ class ImmutableVersion(dns.zone.Version):
         c.seek(target, False)
         left = c.prev()
         assert left is not None
+        while left.value().is_glue():
+            # name sorts after the subtree of a delegation point; the names in
+            # that subtree are occluded, so keep looking.
+            left = c.prev()
+            assert left is not None
         c.next()  # skip over left
         while True:
             right = c.next()
